@@ -2,8 +2,9 @@
 switch (structural part: assembly save/restore discipline + publication order)."""
 from abtverif import asmcheck, seq, cfg
 from abtverif.asmcheck import CALLEE_SAVED
-from abtverif.seq import idx, is_call, show, has_if
+from abtverif.seq import idx, is_call, show
 from . import common
+from .C06 import Sel, rooted, descendants_through
 
 EXPLANATION = (
     "Assembly (A1-A5, abstract interpretation of the x86-64 ELF routine the build compiles): every routine that "
@@ -245,8 +246,33 @@ WRAPPERS = {
     "ABTD_ythread_context_jump_with_call": "jump_with_call_fcontext",
     "ABTD_ythread_context_start_and_jump_with_call": "init_and_jump_with_call_fcontext",
 }
-ROLE = {"p_new_ctx": "&p_new->ctx", "p_old_ctx": "&p_old->ctx", "f_cb": "f_cb", "cb_arg": "cb_arg",
-        "f_thread": "ABTD_ythread_context_func_wrapper", "p_stacktop": "p_new->p_stacktop"}
+YT = "ABTI_ythread*"
+
+
+def _ty(p):
+    return p["t"].replace(" ", "")
+
+
+def _under(path, root):
+    """does access path `path` (canon.rooted) denote `root` or something inside the object `root` points to?"""
+    q = path.lstrip("&*")
+    return q == root or q.startswith(root + "->") or q.startswith(root + ".")
+
+
+def _wrapper_roles(F):
+    """expected argument (access path rooted at the wrapper's own parameters, see canon.rooted) for every parameter
+    role of the assembly prototypes.  The wrapper's ABTD_ythread_context * parameters are (old, new) when there are
+    two and (new) when there is one; its function-pointer parameter is the callback and its void * parameter the
+    callback argument: parameters are identified by type and position, not by name."""
+    cx = [q["n"] for q in F.params if _ty(q) in ("ABTD_ythread_context*", "constABTD_ythread_context*")]
+    fp = [q["n"] for q in F.params if "(*)" in q["t"]]
+    vp = [q["n"] for q in F.params if _ty(q) == "void*"]
+    if len(cx) not in (1, 2) or len(fp) > 1 or len(vp) > 1:
+        return None
+    new, old = cx[-1], (cx[0] if len(cx) == 2 else None)
+    return {"p_new_ctx": "&%s->ctx" % new, "p_old_ctx": ("&%s->ctx" % old) if old else None,
+            "f_cb": fp[0] if fp else None, "cb_arg": vp[0] if vp else None,
+            "f_thread": "ABTD_ythread_context_func_wrapper", "p_stacktop": "%s->p_stacktop" % new}
 
 
 def rule_R1(P, rep):
@@ -258,8 +284,10 @@ def rule_R1(P, rep):
         if ok:
             nd = F.nodes[cs[0][1]]
             proto = [p["n"] for p in P.protos[prim]["params"]]
-            got = [F.render(a) for a in nd["a"]]
-            bad = [(pn, g) for pn, g in zip(proto, got) if ROLE.get(pn) != g]
+            role = _wrapper_roles(F)
+            rep.need(role is not None, "%s: parameters of the wrapper not understood" % w)
+            got = [rooted(F, a) for a in nd["a"]]
+            bad = [(pn, g) for pn, g in zip(proto, got) if role.get(pn) != g]
             ok = not bad and len(proto) == len(got)
             why = "parameter/argument mismatches: %s" % bad
         rep.ob("R1", "%s -> %s binds every argument to the parameter of its role" % (w, prim), ok, why,
@@ -375,11 +403,13 @@ def rule_R2(P, rep):
         sw = F.calls(switchers)
         if not sw:
             continue
-        selfp = [p["n"] for p in F.params if p["n"] in ("p_self", "p_old")]
+        # the outgoing unit: the ABTI_ythread * parameter these headers call p_self / p_old (parameter names of existing
+        # functions; everything derived from it is followed through temporaries by canon.rooted)
+        selfp = [p["n"] for p in F.params if p["n"] in ("p_self", "p_old") and _ty(p) == YT]
         if not selfp:
             continue
         selfn = selfp[0]
-        sel = seq.Sel(calls=lambda c: c in switchers or c in publishers, fields={"state", "p_link"})
+        sel = Sel(calls=lambda c: c in switchers or c in publishers, fields={"state", "p_link"})
         for toks, kind, rv, rtxt in seq.sequences(F, sel, max_len=60):
             s_i = idx(toks, lambda t: t[0] == "call" and t[1] in switchers)
             if not s_i:
@@ -389,12 +419,12 @@ def rule_R2(P, rep):
             for t in pre:
                 if t[0] in ("call", "rel") and (t[1] in publishers or t[0] == "rel"):
                     # pushing / unlocking before the switch publishes the outgoing ULT or lets a waker run
-                    args = [F.render(a) for a in F.nodes[t[-1]]["a"]] if t[0] == "call" else ()
-                    if t[0] == "rel" or any(selfn in a for a in args):
+                    args = [rooted(F, a) for a in F.nodes[t[-1]]["a"]] if t[0] == "call" else ()
+                    if t[0] == "rel" or any(_under(a, selfn) for a in args):
                         why.append("%s before the switch" % show([t]))
                 if t[0] == "ast" and t[2] == "ABTI_thread::state":
-                    tgt = F.render(F.nodes[t[4]]["a"][0])
-                    if selfn in tgt:
+                    tgt = rooted(F, F.nodes[t[4]]["a"][0])
+                    if _under(tgt, selfn):
                         why.append("state of the outgoing ULT written before the switch: %s" % show([t]))
                 if t[0] == "ast" and t[2].endswith("p_link") and "release" in t[1]:
                     why.append("p_link published before the switch")
@@ -414,7 +444,7 @@ def rule_R3(P, rep):
     BLOCKED = P.enum_consts["ABT_THREAD_STATE_BLOCKED"]
     for cb in SUSPEND_CBS:
         F = P.fn(cb, "src/ythread.c")
-        sel = seq.Sel(calls={"ABTI_sched_set_request", "ABTI_thread_handle_request", "ABTI_pool_inc_num_blocked",
+        sel = Sel(calls={"ABTI_sched_set_request", "ABTI_thread_handle_request", "ABTI_pool_inc_num_blocked",
                              "ABTI_pool_dec_num_blocked"}, fields={"state", "p_link"})
         ps = [p for p in seq.sequences(F, sel) if p[1] == "ret"]
         rep.need(ps, "%s has no path" % cb)
@@ -453,6 +483,16 @@ def rule_R3(P, rep):
     rep.min_instances("R3", 5)
 
 
+def _new_arg(P, F, nd):
+    """the argument of a context-switch / sibling-switch call that is the unit switched to: the LAST ABTI_ythread *
+    parameter of the callee (callee(.., [p_old,] p_new, ..)); None if the callee is not understood"""
+    G = P.resolve_call(F, nd)
+    if G is None:
+        return None
+    yts = [i for i, q in enumerate(G.params) if _ty(q) == YT]
+    return nd["a"][yts[-1]] if yts and yts[-1] < len(nd["a"]) else None
+
+
 def rule_R4_R5(P, rep):
     RUNNING = P.enum_consts["ABT_THREAD_STATE_RUNNING"]
     internals = ["ABTI_ythread_switch_to_child_internal", "ABTI_ythread_jump_to_sibling_internal",
@@ -462,26 +502,39 @@ def rule_R4_R5(P, rep):
              "ABTI_ythread_context_jump"}
     for fn in internals:
         F = P.fn(fn, YH)
-        sel = seq.Sel(calls=lambda c: c in ctxsw, fields={"p_thread", "p_last_xstream", "p_parent"}, decls={"p_new"})
+        olds = [q["n"] for q in F.params if _ty(q) == YT]
+        pps = [q["n"] for q in F.params if _ty(q) == "ABTI_xstream**"]
+        rep.need(olds, "%s: no ABTI_ythread * parameter" % fn)
+        old = olds[0]
+        sel = Sel(calls=lambda c: c in ctxsw, fields={"p_thread", "p_last_xstream", "p_parent"}, canon=True)
         for toks, kind, rv, rtxt in seq.sequences(F, sel):
             sw = idx(toks, lambda t: t[0] == "call" and t[1] in ctxsw)
             if not sw:
                 continue
             why = []
+            na = _new_arg(P, F, F.nodes[toks[sw[0]][-1]])
+            new = rooted(F, na) if na is not None else None     # identity of the unit switched to
+            if new is None or new == old:
+                why.append("switches to %s" % (new,))
             ident = [i for i, t in enumerate(toks) if t[0] == "st" and t[1] == "ABTI_xstream::p_thread"]
-            if len(ident) != 1 or ident[0] > sw[0] or toks[ident[0]][3] != "&p_new->thread":
+            if len(ident) != 1 or ident[0] > sw[0] or toks[ident[0]][2] != "=" or \
+                    rooted(F, F.nodes[toks[ident[0]][-1]]["rh"]) != "&%s->thread" % new:
                 why.append("running identity (p_local_xstream->p_thread = &p_new->thread) not set once before the switch")
             if "parent" not in fn:
                 lx = [i for i, t in enumerate(toks) if t[0] == "st" and t[1] == "ABTI_thread::p_last_xstream"]
-                if len(lx) != 1 or lx[0] > sw[0]:
+                if len(lx) != 1 or lx[0] > sw[0] or \
+                        rooted(F, F.nodes[toks[lx[0]][-1]]["lh"]) != "%s->thread.p_last_xstream" % new:
                     why.append("p_new->thread.p_last_xstream not set before the switch")
-            if toks[sw[0]][2][-3 if "with_call" in toks[sw[0]][1] else -1] != "var:p_new" and "var:p_new" not in toks[sw[0]][2]:
-                why.append("switches to %s" % (toks[sw[0]][2],))
             if fn.startswith("ABTI_ythread_switch"):
                 # after a returning switch the local stream is re-read from the ULT
-                post = [F.render(lh) + " = " + F.render(rh) for b, i, lh, rh in F.stores()
-                        if rh is not None and F.render(lh) == "*pp_local_xstream"]
-                if post != ["*pp_local_xstream = p_old->thread.p_last_xstream"]:
+                post = []
+                for b, i, lh, rh in F.stores():
+                    ln = F.nodes[F.strip(lh)]
+                    if rh is not None and ln.get("k") == "un" and ln["op"] == "*":
+                        bn = F.nodes[F.strip(ln["e"])]
+                        if bn.get("k") == "ref" and bn["n"] in pps:
+                            post.append("*%s = %s" % (bn["n"], rooted(F, rh)))
+                if len(pps) != 1 or post != ["*%s = %s->thread.p_last_xstream" % (pps[0], old)]:
                     why.append("local stream not re-read from p_old->thread.p_last_xstream after the switch (%s)" % post)
             rep.ob("R4", "%s sets the running identity before switching [%s]" % (fn, show(toks)), not why, "; ".join(why),
                    loc="%s:%d" % (F.file, F.line), site=fn)
@@ -493,20 +546,21 @@ def rule_R4_R5(P, rep):
         cs = F.calls(sib)
         if not cs or F.name in sib:
             continue
-        sel = seq.Sel(calls=lambda c: c in sib, fields={"state"})
+        sel = Sel(calls=lambda c: c in sib, fields={"state"})
         for toks, kind, rv, rtxt in seq.sequences(F, sel, max_len=60):
             sw = idx(toks, lambda t: t[0] == "call" and t[1] in sib)
             if not sw:
                 continue
             n += 1
-            tgt = toks[sw[0]][2][2]
+            na = _new_arg(P, F, F.nodes[toks[sw[0]][-1]])
+            tgt = rooted(F, na) if na is not None else None
             run = [i for i, t in enumerate(toks[:sw[0]]) if t[0] == "ast" and t[2] == "ABTI_thread::state" and
                    t[3] == RUNNING and "release" in t[1]]
             ok = len(run) == 1
             why = "RUNNING release-stored %d times before the switch" % len(run)
             if ok:
-                who = F.render(F.nodes[toks[run[0]][4]]["a"][0])
-                ok = tgt.replace("var:", "") in who
+                who = rooted(F, F.nodes[toks[run[0]][4]]["a"][0])
+                ok = tgt is not None and who == "&%s->thread.state" % tgt
                 why = "RUNNING stored into %s but the switch targets %s" % (who, tgt)
             # suspend_to switches to a target that the caller (ABT_self_suspend_to) made RUNNING... checked at the API
             if F.name == "ABTI_ythread_suspend_to" and not run:
@@ -520,7 +574,7 @@ def rule_R4_R5(P, rep):
             rep.ob("R5", "%s release-stores RUNNING into the switch target before switching" % F.name, ok, why,
                    loc="%s:%d" % (F.file, F.line), site="running-before-switch/%s/%d" % (F.name, len(toks)))
     F = P.fn("ABTI_ythread_run_child", YH)
-    sel = seq.Sel(calls={"ABTI_ythread_switch_to_child_internal"}, fields={"state"})
+    sel = Sel(calls={"ABTI_ythread_switch_to_child_internal"}, fields={"state"})
     for toks, kind, rv, rtxt in seq.sequences(F, sel):
         sw = idx(toks, is_call("ABTI_ythread_switch_to_child_internal"))
         run = [i for i, t in enumerate(toks) if t[0] == "ast" and t[3] == RUNNING and "release" in t[1]]
@@ -535,7 +589,7 @@ def rule_R6(P, rep):
         F = P.fn(fn, FH, required=(fn != "ABTD_ythread_context_init_lazy"))
         if F is None:
             continue
-        sel = seq.Sel(calls={"ABTDI_fcontext_init"}, fields={"p_link"})
+        sel = Sel(calls={"ABTDI_fcontext_init"}, fields={"p_link"})
         for toks, kind, rv, rtxt in seq.sequences(F, sel):
             init = idx(toks, is_call("ABTDI_fcontext_init"))
             lk = [t for t in toks if t[0] == "ast" and t[2].endswith("p_link")]
@@ -553,13 +607,28 @@ def rule_R6(P, rep):
         F = P.fn(fn, YH, required=False)
         if F is None:
             continue
-        sel = seq.Sel(calls={started, fresh}, conds=lambda t: "ABTD_ythread_context_is_started" in t)
+        news = [q["n"] for q in F.params if _ty(q) == YT]
+        rep.need(news, "%s: no ABTI_ythread * parameter" % fn)
+        new_ctx = "&%s->ctx" % news[-1]          # (.., [p_old,] p_new, ..): the unit switched to is the last one
+
+        def conds(text, F, node, new_ctx=new_ctx):
+            # `is_started(&p_new->ctx)` however it is spelt (== ABT_TRUE, negated, held in a local): the canonical
+            # label is the bare call and its truth is "the context has been started"
+            for d in descendants_through(F, node):
+                dn = F.nodes[d]
+                if dn.get("k") == "call" and dn.get("fn") == "ABTD_ythread_context_is_started" and dn["a"]:
+                    bare = text.startswith("ABTD_ythread_context_is_started(") and " == " not in text[:-5]
+                    if rooted(F, dn["a"][0]) == new_ctx and bare and (text.endswith(")") or text.endswith(") == 1")):
+                        return "started(new)"
+                    return "started?:" + text
+            return False
+        sel = Sel(calls={started, fresh}, conds=conds, canon=True)
         seen = set()
         for toks, kind, rv, rtxt in seq.sequences(F, sel):
             cs = [t for t in toks if t[0] == "call"]
             if not cs:
                 continue
-            is_started = [t for t in toks if t[0] == "if" and "is_started(&p_new->ctx)" in t[1]]
+            is_started = [t for t in toks if t[0] == "if" and t[1] == "started(new)"]
             ok = len(cs) == 1 and len(is_started) == 1 and cs[0][1] == (started if is_started[0][2] else fresh)
             seen.add(cs[0][1])
             rep.ob("R6", "%s: started=%s -> %s" % (fn, is_started[0][2] if is_started else "?", cs[0][1]), ok, show(toks),
